@@ -452,7 +452,7 @@ static ec_curve_str_t ec_curve_str[] = {
 		/*.Gx =*/	"0000000000000000000000000000000000000000000000000000000000000002",
 		/*.Gy =*/	"a20e034bf8813ef5c18d01105e726a17eb248b264ae9706f440bedc8ccb6b22c",
 		/*.n =*/	"5fffffffffffffffffffffffffffffff606117a2f4bde428b7458a54b6e87b85",
-		/*.h =*/	1,
+		/*.h =*/	2,
 		/*.algo =*/	EC_CURVE_ALGO_GOST20XX,
 		/*.flags =*/	EC_CURVE_FLAG_A_M3,
 	}, {
